@@ -214,8 +214,16 @@ def explore(modname, tasks, workers, deadline, log):
                     f.cancel()
                 for a in agg.values():
                     a["truncated"] = True
-                log("deadline reached with paths pending: inconclusive")
+                log("deadline reached with paths pending: inconclusive; stuck: "
+                    + ", ".join(sorted({tn for tn, _ in pending.values()}))[:400])
+                procs = list(getattr(ex, "_processes", {}).values())
                 ex.shutdown(wait=False, cancel_futures=True)
+                for pr in procs:
+                    try:
+                        pr.kill()
+                    except Exception:
+                        pass
+                pending.clear()
                 break
             for f in done:
                 tn, prefix = pending.pop(f)
